@@ -12,17 +12,25 @@ Print Assumptions C17_total.
 (** Blank-separated sequences of tokens — plain words, reference-quoted arguments, heredoc
     arguments, backslash-newline continued words, freely mixed — come back as exactly the
     denoted arguments, the call does not report EOF, and the reader is left exactly after the
-    command's newline (so the next call returns the next command). *)
+    command's newline (so the next call returns the next command).
+    (Since the repair F40 the hypothesis is the WEAK token notion [wtoken] - the equation is
+    required only for continuations that begin with a blank, a tab, a newline or are empty -
+    because a heredoc ends only where such a byte follows its marker; every [token] is a
+    [wtoken]: [C17_token_wtoken].  The statement is thereby stronger than before.) *)
 Theorem C17_tokens : forall ts args r,
-  Forall2 (token false) ts args ->
+  Forall2 (wtoken false) ts args ->
   read_args (join_sp ts ++ NL :: r) = ROk args false r.
 Proof. exact read_args_tokens. Qed.
 Print Assumptions C17_tokens.
 
 Theorem C17_tokens_eof : forall ts args,
-  Forall2 (token false) ts args -> read_args (join_sp ts) = ROk args true [].
+  Forall2 (wtoken false) ts args -> read_args (join_sp ts) = ROk args true [].
 Proof. exact read_args_tokens_eof. Qed.
 Print Assumptions C17_tokens_eof.
+
+Theorem C17_token_wtoken : forall t a, token false t a -> wtoken false t a.
+Proof. exact (token_wtoken false). Qed.
+Print Assumptions C17_token_wtoken.
 
 (** The token kinds.  A plain word: no blank, tab, newline, quote, backslash, and no "=<<". *)
 Theorem C17_word_token : forall w, good_word w = true -> token false w w.
@@ -35,11 +43,14 @@ Theorem C17_quoted_token : forall a, token false (quote1 a) a.
 Proof. exact (token_quote1 false). Qed.
 Print Assumptions C17_quoted_token.
 
+(** Heredoc (semantics of the repair F40), hypothesis on the scanning: the data loop, started with
+    the value NL, does not stop before the end of the text and the marker ([no_early]).  The
+    conditions on the text alone are [C17_heredoc_text] / [C17_heredoc_lines_fixed] below. *)
 Theorem C17_heredoc_token : forall k M t,
   good_word (k ++ [EQS; LT]) = true ->
   M <> [] -> forallb is_marker_char M = true ->
-  first_match_at_end (NL :: M) (t ++ NL :: M) = true ->
-  token false (k ++ [EQS; LT; LT] ++ M ++ NL :: t ++ NL :: M) (k ++ EQS :: trim t).
+  no_early (NL :: M) [NL] (t ++ NL :: M) = true ->
+  wtoken false (k ++ [EQS; LT; LT] ++ M ++ NL :: t ++ NL :: M) (k ++ EQS :: trim t).
 Proof. exact (token_heredoc false). Qed.
 Print Assumptions C17_heredoc_token.
 
@@ -86,7 +97,7 @@ Example C17_ex_words :
 Proof. vm_compute. reflexivity. Qed.
 Example C17_ex_heredoc_hyp :
   good_word ([107] ++ [EQS; LT]) = true /\
-  first_match_at_end (NL :: [69; 79; 70]) ([32; 120; 10; 121; 32] ++ NL :: [69; 79; 70]) = true.
+  no_early (NL :: [69; 79; 70]) [NL] ([32; 120; 10; 121; 32] ++ NL :: [69; 79; 70]) = true.
 Proof. vm_compute. split; reflexivity. Qed.
 Example C17_ex_heredoc :
   read_args ([107; 61; 60; 60; 69; 79; 70; 10; 32; 120; 10; 121; 32; 10; 69; 79; 70; 10])
@@ -115,17 +126,26 @@ Print Assumptions C17_outcome.
     blank is not needed there) may stand before the first and behind the last token.
     Supersedes [C17_tokens] / [C17_tokens_eof] / [C17_words] (one space, nothing around; they
     are the instance [sp_gaps]) and extends [C17_continuation_token] to continuation lines
-    BETWEEN arguments, at the start and at the end of a command. *)
+    BETWEEN arguments, at the start and at the end of a command.
+    [gtoken (t, g) a]: [t] is a token for [a] in the strong sense, or in the weak sense (a
+    heredoc) and then the gap [g] behind it is empty or begins with a blank or a tab (behind a
+    heredoc's marker a backslash would be text).  [C17_gtoken_of_tokens]: strong tokens with any
+    gaps qualify. *)
+Theorem C17_gtoken_of_tokens : forall l args,
+  Forall2 (token false) (map fst l) args -> Forall2 gtoken l args.
+Proof. exact Forall2_token_gtoken. Qed.
+Print Assumptions C17_gtoken_of_tokens.
+
 Theorem C17_tokens_any_gaps : forall g0 l args r,
   is_filler g0 = true -> gaps_ok l = true ->
-  Forall2 (token false) (map fst l) args ->
+  Forall2 gtoken l args ->
   read_args (g0 ++ join_gaps l ++ NL :: r) = ROk args false r.
 Proof. exact read_args_tokens_gaps. Qed.
 Print Assumptions C17_tokens_any_gaps.
 
 Theorem C17_tokens_any_gaps_eof : forall g0 l args,
   is_filler g0 = true -> gaps_ok l = true ->
-  Forall2 (token false) (map fst l) args ->
+  Forall2 gtoken l args ->
   read_args (g0 ++ join_gaps l) = ROk args true [].
 Proof. exact read_args_tokens_gaps_eof. Qed.
 Print Assumptions C17_tokens_any_gaps_eof.
@@ -167,7 +187,7 @@ Print Assumptions C17_script.
 
 Theorem C17_tokens_command : forall g0 l args,
   is_filler g0 = true -> gaps_ok l = true ->
-  Forall2 (token false) (map fst l) args ->
+  Forall2 gtoken l args ->
   is_command (g0 ++ join_gaps l) args.
 Proof. exact tokens_is_command. Qed.
 Print Assumptions C17_tokens_command.
@@ -186,34 +206,82 @@ Theorem C17_bytes_from_input : forall input args eof rest a c,
 Proof. exact read_args_bytes_from_input. Qed.
 Print Assumptions C17_bytes_from_input.
 
-(** HEREDOC in terms of the text: [C17_heredoc_token] with its hypothesis about the scanning
-    ([first_match_at_end]) replaced by a condition on the text alone - no newline of the text is
-    directly followed by the marker. *)
+(** HEREDOC in terms of the text (semantics of the repair F40).  The text between the marker
+    lines comes back, trimmed, for EVERY text - the empty one included - none of whose lines is
+    a terminator line: the marker followed by nothing, a blank or a tab ([term_line]).
+    [C17_heredoc_text] states the condition on the bytes (no newline, the one before the text
+    included, is directly followed by the marker and a blank, a tab or a newline),
+    [C17_heredoc_condition_lines] shows the two conditions equal, [C17_heredoc_empty] is the
+    heredoc without any line.  A heredoc is a token in the weak sense only
+    ([C17_heredoc_not_strong_token]: behind the marker the text goes on unless a blank, a tab, a
+    newline or the end of the input follows). *)
 Theorem C17_heredoc_text : forall k M t,
   good_word (k ++ [EQS; LT]) = true ->
   M <> [] -> forallb is_marker_char M = true ->
-  no_marker_after_nl M t = true ->
-  token false (k ++ [EQS; LT; LT] ++ M ++ NL :: t ++ NL :: M) (k ++ EQS :: trim t).
+  no_term M (NL :: t ++ [NL]) = true ->
+  wtoken false (k ++ [EQS; LT; LT] ++ M ++ NL :: t ++ NL :: M) (k ++ EQS :: trim t).
 Proof. exact (token_heredoc_text false). Qed.
 Print Assumptions C17_heredoc_text.
 
-(** ... and the clause as worded (the text between the marker LINES: no line of the text IS the
-    marker) is FALSE of the model and of the code: a line that only BEGINS with the marker ends
-    the heredoc.  Checked against varutil.ReadArguments with a throw-away test: the same answers. *)
-Theorem C17_heredoc_lines_refuted : ~ heredoc_by_lines.
-Proof. exact heredoc_by_lines_refuted. Qed.
-Print Assumptions C17_heredoc_lines_refuted.
+Theorem C17_heredoc_lines_fixed : forall k M t,
+  good_word (k ++ [EQS; LT]) = true ->
+  M <> [] -> forallb is_marker_char M = true ->
+  forallb (fun l => negb (term_line M l)) (lines t) = true ->
+  wtoken false (k ++ [EQS; LT; LT] ++ M ++ NL :: t ++ NL :: M) (k ++ EQS :: trim t).
+Proof. exact (token_heredoc_lines false). Qed.
+Print Assumptions C17_heredoc_lines_fixed.
 
-Theorem C17_heredoc_marker_prefix_refuted :
-  read_all 3 [107; 61; 60; 60; 69; 79; 70; 10; 97; 10; 69; 79; 70; 88; 10; 69; 79; 70; 10]
+Theorem C17_heredoc_condition_lines : forall M t,
+  forallb is_marker_char M = true ->
+  no_term M (NL :: t ++ [NL]) = forallb (fun l => negb (term_line M l)) (lines t).
+Proof. exact no_term_lines. Qed.
+Print Assumptions C17_heredoc_condition_lines.
+
+Theorem C17_heredoc_empty : forall k M,
+  good_word (k ++ [EQS; LT]) = true ->
+  M <> [] -> forallb is_marker_char M = true ->
+  wtoken false (k ++ [EQS; LT; LT] ++ M ++ NL :: M) (k ++ [EQS]).
+Proof. exact (token_heredoc_empty false). Qed.
+Print Assumptions C17_heredoc_empty.
+
+Theorem C17_heredoc_not_strong_token :
+  ~ token false [107; 61; 60; 60; 69; 10; 97; 10; 69] [107; 61; 97].
+Proof. exact heredoc_not_strong_token. Qed.
+Print Assumptions C17_heredoc_not_strong_token.
+
+(** Regression witnesses for the heredoc scanner BEFORE the repair F40 ([run_hd_old] /
+    [read_args_hd_old]; checked against the unrepaired varutil.ReadArguments with a throw-away
+    test: the same answers), each with its counterpart on the repaired scanner.  (The first three
+    were C17_heredoc_lines_refuted, C17_heredoc_marker_prefix_refuted and
+    C17_heredoc_empty_refuted while the code was unrepaired.)  The clause as worded - no line of
+    the text IS the marker - was false: a line that only BEGINS with the marker ended the heredoc;
+    and an empty heredoc swallowed the commands behind it. *)
+Theorem C17_heredoc_lines_refuted_old : ~ heredoc_by_lines_old.
+Proof. exact heredoc_by_lines_old_refuted. Qed.
+Print Assumptions C17_heredoc_lines_refuted_old.
+
+Theorem C17_heredoc_marker_prefix_refuted_old :
+  read_all_hd_old 3 [107; 61; 60; 60; 69; 79; 70; 10; 97; 10; 69; 79; 70; 88; 10; 69; 79; 70; 10]
   = [ROk [[107; 61; 97; 88]] false []; ROk [[69; 79; 70]] false []; ROk [] true []].
-Proof. exact heredoc_marker_prefix_witness. Qed.
-Print Assumptions C17_heredoc_marker_prefix_refuted.
+Proof. exact heredoc_marker_prefix_old_witness. Qed.
+Print Assumptions C17_heredoc_marker_prefix_refuted_old.
 
-Theorem C17_heredoc_empty_refuted :
-  read_args [107; 61; 60; 60; 69; 79; 70; 10; 69; 79; 70; 10; 110; 101; 120; 116; 10] = RErr.
-Proof. exact heredoc_empty_witness. Qed.
-Print Assumptions C17_heredoc_empty_refuted.
+Theorem C17_heredoc_marker_prefix_fixed :
+  read_all 3 [107; 61; 60; 60; 69; 79; 70; 10; 97; 10; 69; 79; 70; 88; 10; 69; 79; 70; 10]
+  = [ROk [[107; 61; 97; 10; 69; 79; 70; 88]] false []; ROk [] true []].
+Proof. exact heredoc_marker_prefix_fixed. Qed.
+Print Assumptions C17_heredoc_marker_prefix_fixed.
+
+Theorem C17_heredoc_empty_refuted_old :
+  read_args_hd_old [107; 61; 60; 60; 69; 79; 70; 10; 69; 79; 70; 10; 110; 101; 120; 116; 10] = RErr.
+Proof. exact heredoc_empty_old_witness. Qed.
+Print Assumptions C17_heredoc_empty_refuted_old.
+
+Theorem C17_heredoc_empty_fixed :
+  read_all 3 [107; 61; 60; 60; 69; 79; 70; 10; 69; 79; 70; 10; 110; 101; 120; 116; 10]
+  = [ROk [[107; 61]] false []; ROk [[110; 101; 120; 116]] false []; ROk [] true []].
+Proof. exact heredoc_empty_fixed. Qed.
+Print Assumptions C17_heredoc_empty_fixed.
 
 (** Quoting that escapes a backslash INSIDE the quotes is not reversible (the backslash is
     lost), which is why the reference quoting function writes it outside. *)
@@ -293,9 +361,17 @@ Proof. vm_compute. reflexivity. Qed.
 Example C17_ex_provenance_hyp :
   read_args [34; 97; 32; 195; 92; 34; 34; 98; 10; 99] = ROk [[97; 32; 195; 34; 98]] false [99].
 Proof. vm_compute. reflexivity. Qed.
+(** text  EOFX NL SP EOF NL EO  has no terminator line;  a NL EOF SP x  has one *)
 Example C17_ex_heredoc_text_hyp :
-  no_marker_after_nl [69; 79; 70] [69; 79; 70; 88; 10; 32; 69; 79; 70; 10; 69; 79] = true /\
-  no_marker_after_nl [69; 79; 70] [97; 10; 69; 79; 70; 88] = false.
+  no_term [69; 79; 70] (NL :: [69; 79; 70; 88; 10; 32; 69; 79; 70; 10; 69; 79] ++ [NL]) = true /\
+  forallb (fun l => negb (term_line [69; 79; 70] l)) (lines [69; 79; 70; 88; 10; 32; 69; 79; 70; 10; 69; 79]) = true /\
+  no_term [69; 79; 70] (NL :: [97; 10; 69; 79; 70; 32; 120] ++ [NL]) = false.
+Proof. vm_compute. repeat split; reflexivity. Qed.
+(** c k=<<E NL a NL E SP t NL : a heredoc between two words; the gap behind it begins with a blank *)
+Example C17_ex_gtoken_heredoc :
+  starts_sep [32] = true /\
+  read_args (join_gaps [([99], [32]); ([107; 61; 60; 60; 69; 10; 97; 10; 69], [32]); ([116], [])] ++ NL :: [120])
+  = ROk [[99]; [107; 61; 97]; [116]] false [120].
 Proof. vm_compute. split; reflexivity. Qed.
 (** a, --k=v=w, -b, --, c *)
 Example C17_ex_inject :
